@@ -932,8 +932,8 @@ def run(ctx):
     def oracle_all(budget=1.0):
         q = ctx.quick
         return run_oracle(ctx, rng, terms,
-                          int((60 if q else 500) * budget), int((70 if q else 600) * budget),
-                          0, int((10 if q else 60) * budget), int((3 if q else 12) * budget))
+                          int((60 if q else 1500) * budget), int((70 if q else 1500) * budget),
+                          0, int((10 if q else 150) * budget), int((3 if q else 30) * budget))
 
     # ---- (T) translator
     terms = None
@@ -963,7 +963,16 @@ def run(ctx):
 
     # ---- oracle + correspondences (always)
     dist = oracle_all()
-    run_br_correspondence(ctx, rng, 60 if ctx.quick else 500, dist)
+    run_br_correspondence(ctx, rng, 60 if ctx.quick else 1200, dist)
+    if ok and not ctx.quick:
+        with vlib.Lock("coq"):
+            rc, out = vlib.sh(["timeout", "900", "coqchk", "-silent", "-o", "-Q", ".", "QV",
+                               "QV.Props.C07"], timeout=930, cwd=vlib.COQ)
+        good = rc == 0 and "Axioms: <none>" in out
+        ctx.add_obligation("coqchk QV.Props.C07 (Axioms: <none>)", good)
+        if not good:
+            ctx.violation("proof:coqchk", "Props/C07", "coqchk does not accept Props/C07.vo",
+                          {"log": out[-2000:]}, found_input=False)
     replay_witness(ctx)
     ctx.cov["input_distribution"] = dist
     ctx.cov["explanation"] = (
